@@ -45,6 +45,8 @@ def configs(draw):
 
 
 def sha(path):
+    if not os.path.exists(path):
+        return "(file no longer exists)"
     with open(path, "rb") as f:
         return hashlib.sha256(f.read()).hexdigest()
 
@@ -105,7 +107,7 @@ def body_factory(ctx):
                 raise Violation("%s: a temporary file was left behind (system temp directory or the sampler's tempfile_path)" % what,
                                 files=[os.path.basename(f) for f in left])
             if sha(userfile) != user_hash:
-                raise Violation("%s: the user's prior-samples file was modified" % what)
+                raise Violation("%s: the user's prior-samples file was modified or removed" % what, now=sha(userfile))
 
         def follow_up(j, what):
             faults.reset(None)
@@ -174,6 +176,55 @@ def body_factory(ctx):
                         follow_up(jb, what)
                         ctx.note_case({"cfg": {k_: v for k_, v in cfg.items() if k_ != "spec"}, "bad_source": label,
                                        "problem": fingerprint(spec)}, True, ["point:invalid source " + label, "api:" + cfg["api"]])
+                # ---------------------------------------------------------------- a failure that arises by itself in the workers
+                if cfg["multipool"] and cfg["source"] in ("object", "file"):
+                    # a library that lacks a column the sampler needs: reading it fails inside the worker processes; the
+                    # failure must come back to the caller (in finite time), whatever exception type the reader uses
+                    import threading
+                    from schwimmbad import MultiPool
+                    bad_lib = tj.JokerSamples()
+                    for nm in ("P", "e", "omega", "M0"):
+                        bad_lib[nm] = lib[nm]
+                    bad_src = bad_lib
+                    if cfg["source"] == "file":
+                        bad_src = os.path.join(ctx.workdir, "user_lib_without_s.hdf5")
+                        bad_lib.write(bad_src, overwrite=True)
+                    faults.reset(None)
+                    mp = MultiPool(2)
+                    jb = make_joker(faults.FaultyPool(mp, size=2))
+                    box = {}
+
+                    def target():
+                        try:
+                            if cfg["api"] == "mll":
+                                box["ret"] = jb.marginal_ln_likelihood(data, bad_src, n_batches=cfg["n_batches"])
+                            elif cfg["api"] == "rej":
+                                box["ret"] = jb.rejection_sample(data, bad_src, n_batches=cfg["n_batches"])
+                            else:
+                                box["ret"] = jb.iterative_rejection_sample(data, bad_src, n_requested_samples=2, n_batches=cfg["n_batches"])
+                        except BaseException as e_:
+                            box["exc"] = e_
+
+                    th = threading.Thread(target=target, daemon=True)
+                    th.start()
+                    th.join(90.0)
+                    what = "%s/%s on a multi-process pool with a library that lacks the 's' column" % (cfg["api"], cfg["source"])
+                    if th.is_alive():
+                        try:
+                            mp.terminate()
+                        except BaseException:
+                            pass
+                        raise Violation("%s: the call did not come back within 90 s (the workers' failure never reached the caller)" % what)
+                    try:
+                        if "exc" not in box:
+                            raise Violation("%s: the call returned normally" % what, returned=type(box.get("ret")).__name__)
+                        post_checks(jb, what)
+                        follow_up(jb, what)
+                    finally:
+                        mp.close()
+                    ctx.note_case({"cfg": {k_: v for k_, v in cfg.items() if k_ != "spec"}, "bad_library": "no s column",
+                                   "problem": fingerprint(spec)}, True, ["point:worker fails by itself (missing column)", "api:" + cfg["api"],
+                                                                         "pool:MultiPool"])
                 # ---------------------------------------------------------------- enumerate every injection
                 for plan in plans:
                     if ctx.expired():
